@@ -441,3 +441,161 @@ def get_mw_infos(_application):
 '''))
 B('k18_repr_reads_dynamic_attribute', ['C18'], 'R18.b', (CK, "        return ('%s(arg_name=%r, cookie_name=%r)'\n                % (cn, self.arg_name, self.cookie_name))",
                                                          "        shown = ['%s=%r' % (n, getattr(self, n, None)) for n in ('arg_name', 'cookie_name') + tuple(self.__init__.__code__.co_varnames[1:3])]\n        return '%s(%s)' % (cn, ', '.join(shown))"))
+
+# ---- closures, defaults that are overridden, wrappers, thunks ---------------------------------------------------------
+T('k18_nested_closure_helper', ['C18'], (META, GRI, '''def get_resource_info(_application):
+    def displayed(key, val):
+        hidden = 'secret' in key
+        if not hidden:
+            return _trunc(repr(val))
+        else:
+            return '[REDACTED]'
+
+    rows = [(key, displayed(key, val)) for key, val in _application.resources.items()]
+    return [dict(zip(('key', 'value'), row)) for row in rows]
+'''))
+B('k18_nested_closure_reads_value_first', ['C18'], 'R18.a', (META, GRI, '''def get_resource_info(_application):
+    ret = []
+    for key, val in _application.resources.items():
+        def displayed():
+            return _trunc(repr(val))
+        shown = displayed()
+        ret.append({'key': key, 'value': '[REDACTED]' if 'secret' in key else shown})
+    return ret
+'''))
+T('k18_default_then_override', ['C18'], (META, "        if 'secret' in key:\n            trunc_val = '[REDACTED]'\n        else:\n            trunc_val = _trunc(repr(val))",
+                                         "        trunc_val = '[REDACTED]'\n        if 'secret' not in key:\n            trunc_val = _trunc(repr(val))"))
+B('k18_default_set_before_loop', ['C18'], 'R18.a', (META, "    ret = []\n    for key, val in _application.resources.items():\n        if 'secret' in key:\n            trunc_val = '[REDACTED]'\n        else:\n            trunc_val = _trunc(repr(val))",
+                                                    "    ret = []\n    trunc_val = '[REDACTED]'\n    for key, val in _application.resources.items():\n        if 'secret' not in key:\n            trunc_val = _trunc(repr(val))"))
+_TWOPASS = '''def get_resource_info(_application):
+    resources = _application.resources
+    names = list(resources)
+    shown = dict.fromkeys(names, '[REDACTED]')
+    for name in names:
+        if 'secret' not in name:
+            shown[name] = _trunc(repr(resources[name]))
+    return [{'key': name, 'value': shown[name]} for name in names]
+'''
+T('k18_two_pass_fromkeys', ['C18'], (META, GRI, _TWOPASS))
+B('k18_two_pass_overwrites_all', ['C18'], 'R18.a', (META, GRI, _TWOPASS.replace("        if 'secret' not in name:\n            shown[name] =", "        if name:\n            shown[name] =")))
+T('k18_enumerate_sorted_sentinel', ['C18'], (META, GRI, '''def get_resource_info(_application):
+    ret = []
+    numbered = enumerate(_application.resources.items())
+    for _num, (key, val) in sorted(numbered, key=lambda p: p[0]):
+        hidden = 'secret' in key
+        value = '[REDACTED]' if hidden else None
+        if value is None:
+            value = _trunc(repr(val))
+        ret.append(dict([('key', key), ('value', value)]))
+    return ret
+'''))
+B('k18_sentinel_on_wrong_branch', ['C18'], 'R18.a', (META, GRI, '''def get_resource_info(_application):
+    ret = []
+    for key, val in _application.resources.items():
+        hidden = 'secret' in key
+        value = None if hidden else '[REDACTED]'
+        if value is None:
+            value = _trunc(repr(val))
+        ret.append({'key': key, 'value': value})
+    return ret
+'''))
+T('k18_zip_names_with_generator', ['C18'], (META, GRI, '''def get_resource_info(_application):
+    resources = _application.resources
+
+    def displayed_values():
+        for name in resources:
+            if 'secret' in name:
+                yield '[REDACTED]'
+                continue
+            yield _trunc(repr(resources[name]))
+
+    ret = []
+    for key, trunc_val in zip(resources, displayed_values()):
+        ret.append({'key': key, 'value': trunc_val})
+    return ret
+'''))
+T('k18_method_on_peripheral', ['C18'], (META, "    def get_extra_routes(self):\n        return []\n", '''    def get_extra_routes(self):
+        return []
+
+    def safe_get_context(self, injectables):
+        try:
+            return inject(self.get_context, injectables)
+        except Exception as e:
+            return {'exc_content': '%r' % (e,)}
+'''), (META, GMAIN, '''        for peri in self.peripherals:
+            peri_ctx = peri.safe_get_context(kwargs)
+            full_ctx.setdefault(peri.group_key, {}).update(peri_ctx)
+        return full_ctx
+'''))
+T('k18_thunk_helper', ['C18'], (META, GMAIN, '''        for peri in self.peripherals:
+            ok, outcome = attempt(lambda: inject(peri.get_context, kwargs))
+            peri_ctx = outcome if ok else {'exc_content': repr(outcome)}
+            full_ctx.setdefault(peri.group_key, {}).update(peri_ctx)
+        return full_ctx
+'''), (META, "def _trunc(str_val, length=70, trailer='...'):", '''def attempt(thunk):
+    try:
+        return True, thunk()
+    except Exception as e:
+        return False, e
+
+
+def _trunc(str_val, length=70, trailer='...'):'''))
+B('k18_thunk_helper_narrow', ['C18'], 'R18.c', (META, GMAIN, '''        for peri in self.peripherals:
+            ok, outcome = attempt(lambda: inject(peri.get_context, kwargs))
+            peri_ctx = outcome if ok else {'exc_content': repr(outcome)}
+            full_ctx.setdefault(peri.group_key, {}).update(peri_ctx)
+        return full_ctx
+'''), (META, "def _trunc(str_val, length=70, trailer='...'):", '''def attempt(thunk):
+    try:
+        return True, thunk()
+    except LookupError as e:
+        return False, e
+
+
+def _trunc(str_val, length=70, trailer='...'):'''))
+T('k18_partial_inject_preset_placeholder', ['C18'], (META, "        for peri in self.peripherals:\n            try:\n                peri_ctx = inject(peri.get_context, kwargs)\n            except Exception as e:\n                peri_ctx = {'exc_content': repr(e)}",
+                                                     "        from functools import partial\n        call_injected = partial(inject, injectables=kwargs)\n        for peri in self.peripherals:\n            try:\n                peri_ctx = call_injected(peri.get_context)\n            except Exception as e:\n                peri_ctx = {'exc_content': repr(e)}"),
+  (META, "            try:\n                cur_general_items = inject(peri.get_general_items, kwargs)\n                cur_general_items = _process_items(cur_general_items)\n            except Exception as e:\n                cur_general_items = []",
+         "            cur_general_items = []\n            try:\n                raw_items = inject(peri.get_general_items, kwargs)\n                processed = _process_items(raw_items)\n            except Exception:\n                pass\n            else:\n                cur_general_items = processed"))
+B('k18_handler_passes_without_preset', ['C18'], 'R18.c', (META, "            except Exception as e:\n                peri_ctx = {'exc_content': repr(e)}", "            except Exception as e:\n                pass"))
+B('k18_generator_helper_outside_try', ['C18'], 'R18.c', (META, GMAIN, '''        for peri in self.peripherals:
+            group_ctx = full_ctx.setdefault(peri.group_key, {})
+            try:
+                items = self.iter_context_items(peri, kwargs)
+            except Exception as e:
+                items = [('exc_content', repr(e))]
+            group_ctx.update(items)
+        return full_ctx
+
+    def iter_context_items(self, peri, injectables):
+        peri_ctx = inject(peri.get_context, injectables) or {}
+        for key in peri_ctx:
+            yield key, peri_ctx[key]
+'''))
+B('k18_context_function_chosen_per_route', ['C18'], 'R18.c', (META, GMAIN, '''        get_context = self.get_page_context if _route.render_arg == self.render_main_page_html else self.get_data_context
+        for peri in self.peripherals:
+            full_ctx.setdefault(peri.group_key, {}).update(get_context(peri, kwargs))
+        return full_ctx
+
+    def get_page_context(self, peri, injectables):
+        try:
+            return inject(peri.get_context, injectables)
+        except Exception as e:
+            return {'exc_content': repr(e)}
+
+    def get_data_context(self, peri, injectables):
+        return inject(peri.get_context, injectables)
+'''))
+B('k18_base_class_repr_dumps_vars', ['C18'], 'R18.b', (C, "class Middleware(object):\n", "class Middleware(object):\n    def __repr__(self):\n        return '%s(%s)' % (self.__class__.__name__, ', '.join('%s=%r' % kv for kv in sorted(vars(self).items())))\n\n"))
+B('k18_providers_index_of_objects', ['C18'], 'R18.a', (META, GMI, '''def summarize_stack(stack):
+    rows, providers = [], {}
+    for depth, layer in enumerate(stack):
+        rows.append({'type_name': layer.__class__.__name__, 'provides': layer.provides, 'requires': layer.requires, 'repr': repr(layer)})
+        for arg_name in layer.provides:
+            providers.setdefault(arg_name, []).append(layer)
+    return rows, providers
+
+
+def get_mw_infos(_application):
+    return summarize_stack(_application.middlewares)[0]
+'''), (META, "        return {'middlewares': get_mw_infos(_application)}", "        infos, providers = summarize_stack(_application.middlewares)\n        return {'middlewares': infos, 'mw_providers': providers}"))
